@@ -9,6 +9,8 @@ usage: `drive_c07 <btree|index>`; stdin lines (anything after a TAB is ignored):
                                   `h`: an `IndexMap` lookup met a key that is `==` but hashes differently,
                                   so the implementation's answer depends on the hash table layout)
 * `batch <len> <count> <fill>`, `slicef <len> <count> <fill>`   answers the run lengths like the harness
+* `lk vm <n> <key> <probe>`      answers `get=<0|1> attr=<0|1|->[ h]`: `get_value(probe)` and, for a string
+                                  probe, `get_value_by_str(probe)` on the `n`-entry map holding `key`
 -/
 open MJ MJ.Val MJ.Cmp MJ.Coll
 
@@ -142,6 +144,27 @@ def handle (m : Mode) (zoo : Array V) (line : String) : Array V × String :=
       let dep := if m == .index && (hashDep a b) then " h" else ""
       (zoo, s!"pair {i} {j}\t{ordChar (cmpV a b)} {if eqV m a b then 1 else 0} {h}{dep}")
     | _, _ => (zoo, s!"{case}\tbad-case")
+  | ["lk", _backing, n, kenc, penc] =>
+    match n.toNat?, parseV m kenc.toList, parseV m penc.toList with
+    | some n, some (k, []), some (p, []) =>
+      let marker : V := .num (.i64 777)
+      let fillers : List (V × V) := (List.range (n - 1)).map fun i =>
+        (V.str (s!"~f{i + 1}".toUTF8.toList.map (·.toNat)), V.num (.u64 (i + 1)))
+      match mkMap m ((k, marker) :: fillers) with
+      | .map ps =>
+        let isM : Option V → String := fun o => match o with
+          | some (.num (.i64 777)) => "1"
+          | _ => "0"
+        let attr := match p with
+          | .str t => isM (getByStr m ps t)
+          | _ => "-"
+        -- IndexMap: a stored key that is == the probe but hashes differently is found or not
+        -- depending on the table layout
+        let dep := if m == .index && ps.length ≠ 1 &&
+            ps.any (fun q => eqV .index p q.1 && hashBytes p != hashBytes q.1) then " h" else ""
+        (zoo, s!"{case}\tget={isM (getV m ps p)} attr={attr}{dep}")
+      | _ => (zoo, s!"{case}\tbad-case")
+    | _, _, _ => (zoo, s!"{case}\tbad-case")
   | [which, len, count, fill] =>
     match len.toNat?, count.toNat? with
     | some len, some count => (zoo, s!"{case}\t{runFilter which len count (fill == "1")}")
